@@ -82,7 +82,9 @@ def impl_run(case):
     st = craw.settings(case["settings"])
     wp = comp.ctypes.data_as(C.POINTER(C.c_double))
     out = {"d": res["d"], "slices": [], "guard_ok": True}
-    ZONE = 16
+    # red zones as large as the whole matrix: a stray write of the slice routine (finding F17, since fixed) lands in
+    # the zone and is reported for THIS case instead of corrupting the heap of the worker
+    ZONE = (r + 2) * (c + 2)
     SENT = 12345.678
     for (rb, re, cb, ce) in [[0, r + 1, 0, c + 1]] + case["slices"]:
         n = (re - rb) * (ce - cb)
